@@ -240,6 +240,20 @@ pub fn segments(o: Opt) -> BoxedStrategy<Vec<String>> {
 	.boxed()
 }
 
+/// Segment lists rich in dot and empty segments (for normalisation / resolution).
+pub fn dotty_segments(o: Opt) -> BoxedStrategy<Vec<String>> {
+	let one = prop_oneof![
+		4 => select(sv(&[".", "..", "", ".."])),
+		4 => plain_segment(o),
+		1 => segment(o),
+	];
+	prop_oneof![
+		85 => vec(one.clone(), 0..=6),
+		15 => vec(one, 7..=24),
+	]
+	.boxed()
+}
+
 /// Fix up a (abs, segs) pair so that its rendering is a stand-alone relative or
 /// absolute path with exactly these segments under R-SEGS.
 pub fn path_text(abs: bool, segs: &[String]) -> String {
@@ -295,11 +309,16 @@ pub fn repair(mut p: Parts, abs: bool, segs: Vec<String>, full: bool) -> Parts {
 }
 
 pub fn ref_parts(o: Opt, full: bool) -> BoxedStrategy<Parts> {
+	ref_parts_with(o, full, segments(o), 6, 5)
+}
+
+/// Like `ref_parts` with a custom segment strategy and presence weights (out of 10).
+pub fn ref_parts_with(o: Opt, full: bool, segs: BoxedStrategy<Vec<String>>, p_scheme: u32, p_auth: u32) -> BoxedStrategy<Parts> {
 	(
-		opt_of(scheme(), 6),
-		opt_of(authority(o), 5),
+		opt_of(scheme(), p_scheme),
+		opt_of(authority(o), p_auth),
 		any::<bool>(),
-		segments(o),
+		segs,
 		opt_of(query(o), 4),
 		opt_of(fragment(o), 4),
 	)
